@@ -683,6 +683,7 @@ class Shape(object):
         t1 = ct1 = 0.0  # prevent warnings about use-before-assign
         collect_stats = bool(executor.debug)
 
+        is_top_level = _evaluation_path is None
         if _evaluation_path is None:
             _evaluation_path = []
         else:
@@ -724,19 +725,26 @@ class Shape(object):
         focus_value_nodes = self.value_nodes(
             target_graph, focus_list, sparql_mode=executor.sparql_mode, debug=executor.debug
         )
-        filter_reports: bool = False
-        allow_conform: bool = False
+        # Severities are only waived for the verdict of a top-level shape evaluation. When this shape
+        # is evaluated on behalf of a constraint of another shape (sh:node, sh:not, sh:or, ...), that
+        # constraint needs to know whether the node really conforms.
+        waive_severities: bool = bool(executor.allow_infos or executor.allow_warnings) and is_top_level
         allowed_severities: Set[URIRef] = set()
         if executor.allow_infos:
             allowed_severities.add(SH_Info)
         if executor.allow_warnings:
             allowed_severities.add(SH_Info)
             allowed_severities.add(SH_Warning)
-        if executor.allow_infos or executor.allow_warnings:
-            if self.severity in allowed_severities:
-                allow_conform = True
-            else:
-                filter_reports = True
+
+        def _fails(_is_conform: bool, _reports: List) -> bool:
+            if _is_conform or not waive_severities:
+                return not _is_conform
+            # the verdict only depends on the severities of the reported results
+            for _v_str, v_node, v_parts in _reports:
+                severity_bits = list(filter(lambda p: p[0] == v_node and p[1] == SH_resultSeverity, v_parts))
+                if not severity_bits or severity_bits[0][2] not in allowed_severities:
+                    return True
+            return False
 
         non_conformant = False
         done_constraints = set()
@@ -777,7 +785,7 @@ class Shape(object):
                     self.logger.debug(f"Milliseconds to check constraint {str(c)}: {elapsed * 1000.0:.3f}ms")
                 if _is_conform:
                     self.logger.debug(f"DataGraph conforms to constraint {c}.")
-                elif allow_conform:
+                elif not _fails(_is_conform, _reports):
                     self.logger.debug(f"Focus nodes do _not_ conform to constraint {c} but given severity is allowed.")
                 else:
                     self.logger.debug(f"Focus nodes do _not_ conform to constraint {c}.")
@@ -785,17 +793,7 @@ class Shape(object):
                         for v_str, v_node, v_parts in _reports:
                             self.logger.debug(v_str)
 
-            if _is_conform or allow_conform:
-                ...
-            elif filter_reports:
-                all_allow = True
-                for v_str, v_node, v_parts in _reports:
-                    severity_bits = list(filter(lambda p: p[0] == v_node and p[1] == SH_resultSeverity, v_parts))
-                    if severity_bits:
-                        all_allow = all_allow and (severity_bits[0][2] in allowed_severities)
-                non_conformant = non_conformant or (not all_allow)
-            else:
-                non_conformant = non_conformant or (not _is_conform)
+            non_conformant = non_conformant or _fails(_is_conform, _reports)
             reports.extend(_reports)
             run_count += 1
             done_constraints.add(constraint_component)
@@ -809,7 +807,7 @@ class Shape(object):
             validator = a.make_validator_for_shape(self)
             _e_p_copy2.append(validator)
             _is_conform, _r = validator.evaluate(executor, target_graph, focus_value_nodes, _e_p_copy2)
-            non_conformant = non_conformant or (not _is_conform)
+            non_conformant = non_conformant or _fails(_is_conform, _r)
             reports.extend(_r)
             run_count += 1
         if collect_stats:
